@@ -115,7 +115,7 @@ def execute(ctx, case):
 
     def op_swap():
         sw = gs.swap()
-        C(attached(sw, True) and (sw.score_class.value, sw.equal_class.value) == (FLIP[sc], FLIP[ec]) and sorted(sw.groups) == sorted(set(pg) | set(ng))
+        C(attached(sw, True) and monitors.cfg_of(sw) == (FLIP[sc], FLIP[ec]) and sorted(sw.groups) == sorted(set(pg) | set(ng))
           and len(sw.pos) == len(neg) and len(sw.neg) == len(pos), "swap(): labels detached, flags not flipped or groups changed", "gs-swap")
 
     def op_from_labels():
